@@ -21,6 +21,7 @@ history stops quietly (class `diverged-elsewhere`): the owner property reports i
 
 from __future__ import annotations
 
+import asyncio
 import re
 from collections import Counter
 from typing import Any
@@ -137,6 +138,33 @@ async def _run_history(
         transport.step = idx
         info["steps"] = idx + 1
         kind = op[0]
+        if kind == "session":
+            if listener is not None:
+                await listener.close()
+            if info.get("in_session"):
+                await gateway.__aexit__(None, None, None)
+            await gateway.__aenter__()
+            info["in_session"] = True
+            classes["session-restart"] += 1
+            continue
+        if kind == "sleep":
+            await asyncio.sleep(float(op[1]))  # meaningful on the virtual-time loop
+            continue
+        if kind == "install":
+            # the registry grows outside the handlers (persistence.load on a running gateway, or the application itself)
+            from aiomysensors.model.node import Node as _Node
+
+            node_id = int(op[1])
+            if node_id not in gateway.nodes:
+                gateway.nodes[node_id] = _Node(node_id, 17, "2.0")
+                from vf.model import new_node as _new_node
+
+                model.nodes[str(node_id)] = _new_node(node_id, 17, "2.0")
+            continue
+        if kind == "metric":
+            gateway.config.metric = bool(op[1])  # the application changes its configuration in place
+            model.metric = bool(op[1])
+            continue
         if kind == "flag":
             _k, node, _name, value = op
             if node in gateway.nodes:
@@ -204,6 +232,15 @@ async def _run_history(
         mk = _msgkind(pred.fields)
         classes[f"rx:{rec.outcome}"] += 1
 
+        if rec.outcome == "drained":
+            # the line was consumed without a yield and without an error (the listener asked for another line)
+            owed = bool(pred.reactions) or (pred.flush_node is not None and bool(model.parked_for(pred.flush_node))) or pred.time_reply or pred.id_request
+            if "outcome" in aspects or ("writes" in aspects and owed) or ("presreq" in aspects and pred.presreq_node is not None) \
+                    or ("vquery" in aspects and model.version is None and pred.fields is not None and not pred.version_exempt):
+                return bad(f"line-swallowed:{mk}", "the line was consumed but neither yielded nor rejected", idx), info
+            info["diverged"] = True
+            classes["diverged-elsewhere"] += 1
+            return None, info
         if rec.outcome == "leak":
             if "leak" in aspects:
                 return bad(f"leak:{env.exc_sig(rec.value)}", f"{rec.value!r}", idx), info
@@ -341,6 +378,11 @@ async def _run_history(
             return None, info
         if want_q:
             classes["version-query"] += 1
+        if "sleepflag" in aspects:
+            want_flags = {k: v["sleeping"] for k, v in model.nodes.items()}
+            got_flags = {k: v["sleeping"] for k, v in rec.after.items() if k in want_flags}
+            if want_flags != got_flags:
+                return bad(f"sleeping-flag:{mk}", f"nodes known to be sleeping: model {want_flags!r}, gateway {got_flags!r}", idx), info
         if rec.after != model.nodes:
             if "registry" in aspects:
                 diff = _first_diff(model.nodes, rec.after)
